@@ -16,7 +16,7 @@
 
    Outside the model (returns None): F = 0 frames; size-1 broadcasting between dt/gyro/acc/rot
    (they must have the same B and F); per-call gyro_cov/acc_cov/init_state arguments. *)
-From Coq Require Import ZArith QArith Qabs List Bool.
+From Coq Require Import ZArith QArith Qabs List Bool Uint63.
 From Bignums Require Import BigZ.
 Import ListNotations.
 From PV Require Import Base.Num Base.Mat Model.Cumops Model.LieGroup.
@@ -144,7 +144,9 @@ Definition propagate_cov_gen (left : bool) (cs : list cframe) (init_cov : @mat F
   | Some c => let Alc := rev c in                            (* .flip([1]) *)
               Some (msum (zip_with congr Alc Bs))            (* sum(A_left_cum @ B_cov @ A_right_cum) *)
   end.
-Definition propagate_cov := propagate_cov_gen true.
+(* the flag the source hands to cumprod in propagate_cov: `cumprod(A.flip([1]), dim=1)` = default left=True *)
+Definition code_left : bool := true.
+Definition propagate_cov := propagate_cov_gen code_left.
 
 (* ---- module state and forward (one batch item) ---- *)
 Record istate := { s_pos : @vec3 F; s_rot : @quat F; s_vel : @vec3 F; s_cov : @mat F; s_rij : option (@quat F) }.
@@ -180,7 +182,7 @@ Definition forward1_gen (left : bool) (c : cfg) (st : istate) (fs : list iframe)
       end
     end
   end.
-Definition forward1 := forward1_gen true.
+Definition forward1 := forward1_gen code_left.
 
 (* ---- constructor ---- *)
 Definition mk_cfg (g : F) (gyro_cov acc_cov : @vec3 F) (prop_cov reset : bool) : option cfg :=
@@ -240,7 +242,7 @@ Definition forward_gen (left : bool) (c : cfg) (st : list istate) (dt : tens F) 
         end
       | _, _ => None
       end.
-Definition forward := forward_gen true.
+Definition forward := forward_gen code_left.
 
 (* the code's entry point: gyro instead of increments, Exp / Jr external *)
 Section Gyro.
@@ -344,9 +346,62 @@ Definition imu_bad (cs : list ecase) : list nat :=
   map (fun e => match e with (i, _, _, _, _, _, _, _) => i end) (filter (fun e => negb (case_ok e)) cs).
 End Eval.
 
+(* ---- the cases arrive as a flat stream of primitive 63-bit integers (literals of that type are
+   the only ones Coq elaborates fast enough): counts, flags and numbers.  A number is two words
+   (2*m + sign, k + 1100) and stands for  (-1)^sign * m / 2^k  (every float is of this form). *)
+Section Decode.
+Context {F : Type}.
+Variable mkF : bool -> int -> int -> F.
+Definition rd (A : Type) := list int -> option (A * list int).
+Definition rret {A} (a : A) : rd A := fun s => Some (a, s).
+Definition rbind {A B} (m : rd A) (f : A -> rd B) : rd B :=
+  fun s => match m s with Some (a, r) => f a r | None => None end.
+Local Notation "x <- m ;; k" := (rbind m (fun x => k)) (at level 61, m at next level, right associativity).
+Definition rint : rd int := fun s => match s with x :: r => Some (x, r) | [] => None end.
+Definition rnat : rd nat :=
+  x <- rint ;; if Uint63.ltb x 100000 then rret (Z.to_nat (Uint63.to_Z x)) else (fun _ => None).
+Definition rbool : rd bool := x <- rint ;; rret (Uint63.eqb x 1).
+Definition rnum : rd F := a <- rint ;; k <- rint ;; rret (mkF (Uint63.eqb (Uint63.land a 1) 1) (Uint63.lsr a 1) k).
+Fixpoint rrep {A} (n : nat) (r : rd A) : rd (list A) :=
+  match n with O => rret [] | S n' => x <- r ;; l <- rrep n' r ;; rret (x :: l) end.
+Definition rlist {A} (r : rd A) : rd (list A) := n <- rnat ;; rrep n r.
+Definition ropt {A} (r : rd A) : rd (option A) := b <- rbool ;; if b then (x <- r ;; rret (Some x)) else rret None.
+Definition rv3 : rd (@vec3 F) := a <- rnum ;; b <- rnum ;; c <- rnum ;; rret (a, b, c).
+Definition rq : rd (@quat F) := v <- rv3 ;; w <- rnum ;; rret (v, w).
+Definition rm3 : rd (@mat3 F) := a <- rv3 ;; b <- rv3 ;; c <- rv3 ;; rret (a, b, c).
+Definition rtens {A} (r : rd A) : rd (tens A) :=
+  rank <- rnat ;;
+  match rank with
+  | 1%nat => x <- r ;; rret (T1 x)
+  | 2%nat => l <- rlist r ;; rret (T2 l)
+  | _ => b <- rlist (rlist r) ;; rret (T3 b)
+  end.
+Definition rexp1 : rd (exp1 F) :=
+  rots <- rlist rq ;; vels <- rlist rv3 ;; poss <- rlist rv3 ;; cov <- ropt (rlist (rlist rnum)) ;;
+  rret (rots, vels, poss, cov).
+Definition recall : rd (@ecall F) :=
+  dt <- rtens rnum ;; inc <- rtens rq ;; jr <- rtens rm3 ;; acc <- rtens rv3 ;; rot <- ropt (rtens rq) ;;
+  e <- ropt (rlist rexp1) ;; t1 <- rnum ;; t2 <- rnum ;; t3 <- rnum ;; t4 <- rnum ;;
+  rret ((dt, inc, jr, acc, rot), e, (t1, t2, t3, t4)).
+Definition recase : rd (@ecase F) :=
+  idx <- rnat ;; g <- rnum ;; cg <- rv3 ;; ca <- rv3 ;; prop <- rbool ;; reset <- rbool ;;
+  p0 <- rv3 ;; r0 <- rq ;; v0 <- rv3 ;; calls <- rlist recall ;;
+  rret (idx, g, cg, ca, prop, reset, (p0, r0, v0), calls).
+(* the stream must be consumed exactly *)
+Definition decode (chunks : list (list int)) : option (list (@ecase F)) :=
+  match rlist recase (concat chunks) with Some (cs, []) => Some cs | _ => None end.
+End Decode.
+Definition decode_failed : list nat := [1000000%nat].
+
 (* exact route: the model's exact rational value; |model - impl| <= tol with tol = 0 wherever the
    inputs are chosen so that float64 performs no rounding *)
 Definition imu_bad_Q : list (@ecase Q) -> list nat := imu_bad (fun a b t => Qle_bool (Qabs (a - b)) t).
+Definition mkQ (neg : bool) (m k : int) : Q :=
+  let z := Uint63.to_Z m in let z := if neg then Z.opp z else z in
+  let e := (Uint63.to_Z k - 1100)%Z in
+  if (0 <=? e)%Z then Qred (Qmake z (Z.to_pos (Z.shiftl 1 e))) else Qred (inject_Z (Z.shiftl z (- e))).
+Definition imu_bad_Qs (chunks : list (list int)) : list nat :=
+  match decode mkQ chunks with Some cs => imu_bad_Q cs | None => decode_failed end.
 
 (* tolerance route: 256-bit binary fixed point on BigZ (value = z / 2^256); multiplication and
    division truncate to a multiple of 2^-256, far below every tolerance of the check *)
@@ -365,3 +420,9 @@ Definition NumFx : Num fx := {|
 Definition fxd (m : Z) (k : Z) : fx := Fx (BigZ.shiftl (BigZ.of_Z m) (fxP - BigZ.of_Z k)%bigZ).
 Definition fx_close (a b t : fx) : bool := BigZ.leb (BigZ.abs (fxz a - fxz b)%bigZ) (fxz t).
 Definition imu_bad_fx : list (@ecase fx) -> list nat := @imu_bad fx NumFx fx_close.
+(* (-1)^neg m / 2^(k-1100) on the fixed-point grid: shift by 256 - (k - 1100) >= 0 (the harness sends k - 1100 <= 250) *)
+Definition mkFx (neg : bool) (m k : int) : fx :=
+  let z := BigZ.shiftl (BigZ.Pos (BigN.N0 m)) (BigZ.Pos (BigN.N0 (Uint63.sub 1356 k))) in
+  Fx (if neg then BigZ.opp z else z).
+Definition imu_bad_fxs (chunks : list (list int)) : list nat :=
+  match decode mkFx chunks with Some cs => imu_bad_fx cs | None => decode_failed end.
